@@ -600,11 +600,11 @@ def group_recompute(rep, model):
             sigs = ('list', tuple(E.attrs(ctx, o)['sig'] for o in members))
             flat = [((i,), o) for i, o in enumerate(members)]
         else:
-            grid = [[member(f'{i}{j}') for j in range(2)] for i in range(2)]
+            grid = [[member(f'{i}{j}') for j in range(3)] for i in range(2)]          # a non-square grid: the two extents cannot stand in for each other
             models = ('list', tuple(('list', tuple(row)) for row in grid))
             tables = ('list', tuple(('list', tuple(E.attrs(ctx, o)['df_features'] for o in row)) for row in grid))
             sigs = ('list', tuple(('list', tuple(E.attrs(ctx, o)['sig'] for o in row)) for row in grid))
-            flat = [((i, j), grid[i][j]) for i in range(2) for j in range(2)]
+            flat = [((i, j), grid[i][j]) for i in range(2) for j in range(3)]
         old = {pos: E.attrs(ctx, o)['df_features'] for pos, o in flat}
         E.attrs(ctx, grp_obj).update(models=models, df_features=tables, sigs=sigs, n_dims=C(nd), fs=('param', 'fs'), f_range=('param', 'f_range'))
         ctx.trace.clear()
